@@ -1169,3 +1169,38 @@ Theorem C19_llist_node_detach_agrees_generated : forall h n nd l L c,
       (forall pd', ll_node_at h' (ln_prev nd) = Some pd' -> o6 = ll_enc n (ln_next pd')).
 Proof. exact ll_node_detach_agrees_generated. Qed.
 Print Assumptions C19_llist_node_detach_agrees_generated.
+
+(* ares_round_up_pow2 (the growth function of ares_array / ares_slist / ares_htable), GENERATED
+   from src/lib/util/ares_math.c with both bit-smearing bodies inlined: for every size a container
+   can pass it returns the least power of two >= n, which is the value the hand models and
+   C19_array_set_size_agrees_generated instantiate the call with (Dsa/Pow2_gen_agree.v; proof by
+   an invariant over bit positions, for ALL n in range, both word sizes). *)
+From CAres.Dsa Require Import Pow2_gen_agree.
+Theorem C19_round_up_pow2_agrees_generated : forall k : nat,
+  (0 < k)%nat -> (Z.of_nat k <= 2 ^ 62)%Z ->
+  c_ares_round_up_pow2 (Z.of_nat k) 1 = Ok (Z.of_nat (round_up_pow2 k)) /\
+  sl_round_up_pow2 k = round_up_pow2 k.
+Proof. intros k Hk Hb. split; [exact (round_up_pow2_agrees_generated k Hk Hb) | reflexivity]. Qed.
+Print Assumptions C19_round_up_pow2_agrees_generated.
+
+Theorem C19_round_up_pow2_generated_least : forall n p : Z,
+  (1 <= n <= 2 ^ 62)%Z -> c_ares_round_up_pow2 n 1 = Ok p ->
+  (n <= p)%Z /\ (exists e, 0 <= e /\ p = 2 ^ e)%Z /\ (forall e, 0 <= e -> n <= 2 ^ e -> p <= 2 ^ e)%Z.
+Proof. exact round_up_pow2_generated_least. Qed.
+Print Assumptions C19_round_up_pow2_generated_least.
+
+(* the 32-bit body (ares_is_64bit() false), and this build's ares_is_64bit() *)
+Theorem C19_round_up_pow2_generated_32 : forall n : Z,
+  (1 <= n <= 2 ^ 31)%Z -> c_ares_round_up_pow2 n 0 = Ok (2 ^ Z.log2_up n)%Z.
+Proof. exact round_up_pow2_generated_32. Qed.
+Print Assumptions C19_round_up_pow2_generated_32.
+
+Theorem C19_is_64bit_generated : c_ares_is_64bit = Ok 1%Z.
+Proof. exact is_64bit_generated. Qed.
+Print Assumptions C19_is_64bit_generated.
+
+(* outside that range the C function is not total on LP64 (signed n++ on ares_int64_t overflows);
+   no container operation reaches it - a size above 2^62 elements cannot be allocated *)
+Theorem C19_round_up_pow2_overflow_refuted : c_ares_round_up_pow2 (2 ^ 62 + 1) 1 = UB SignedOverflow.
+Proof. exact round_up_pow2_overflow_refuted. Qed.
+Print Assumptions C19_round_up_pow2_overflow_refuted.
